@@ -23,6 +23,7 @@ func main() {
 	list := flag.Bool("list", false, "list functions and exit")
 	verbose := flag.Bool("v", false, "print every obligation")
 	allFuncs := flag.Bool("all", false, "also verify inlinable unexported functions as roots")
+	frame := flag.Bool("frame", false, "run the frame analysis (C14) instead of the contract verification")
 	flag.Parse()
 
 	t0 := time.Now()
@@ -50,7 +51,13 @@ func main() {
 	}
 	var results []*FuncResult
 	var obs []*Obligation
+	if *frame {
+		results = append(results, e.frameCheck())
+	}
 	for _, f := range e.allFuncs {
+		if *frame {
+			break
+		}
 		isLemma := e.contractOf[f] != nil && e.contractOf[f].Flags["lemma"]
 		if (e.specFns[f] && !isLemma) || f.Parent() != nil || f.Name() == "init" || f.Origin() != nil {
 			continue
